@@ -352,6 +352,11 @@ def run(ctx) -> None:
                                "processes": [1, 2, 3] if quick else [1, 2, 3, 5, 8]})
     _STATE["log"] = str(venv.WORK_DIR / f"c12-events-{os.getpid()}.jsonl")
     proc_choices = [1, 2, 5] if quick else [1, 2, 3, 4, 5, 8, 16]
+    # guaranteed minimum, independent of the time budget: one multi-worker comparison
+    run_config(ctx, {"n": 3, "generator": "noisy_factory", "computer": "superadditive_cached", "gap": "exploitability", "solver": "largest",
+                     "seed": rng.randint(0, 10**6), "repetitions": 5, "limit": 3, "budget": None, "processes": [1, 2], "jitter": 0.0})
+    cli_solve(ctx, {"n": 3, "generator": "noisy_factory", "computer": "superadditive", "gap": "exploitability", "solver": "greedy",
+                    "seed": rng.randint(0, 10**6), "repetitions": 3, "budget": None, "procs": 2, "limit": None})
     # look-ahead solvers on games where a single reveal can end the episode (full-length runs, sequential: cheap)
     for _ in range(8 if quick else 40):
         run_config(ctx, {"n": 4, "generator": rng.choice(["xs2", "xs2", "xs3", "k_budget_generator"]), "computer": rng.choice(sut.SA_COMPUTERS),
